@@ -511,3 +511,106 @@ Proof.
   exists s', ys. split; [exact E|]. split; [exact (calls_quiet_l _ _ _ _ _ Q1 C) | exact I'].
 Qed.
 End MapFn.
+
+(* ============================================== the one-list and the two-list forms *)
+Definition row1 (x : aval) : list aval := [x].
+Definition row2 (xy : aval * aval) : list aval := [fst xy; snd xy].
+
+Lemma rows_one a v xs : achain a v xs anil -> amap_rows a [v] (map row1 xs).
+Proof.
+  intros H. remember anil as e eqn:Ee. induction H as [v Hnp | p x d xs e Hp Hc IH]; subst.
+  - apply mr_stop. reflexivity.
+  - cbn [map]. apply (mr_step a [ALoc (LPair p)] [(x, d)] (map row1 xs)).
+    + reflexivity.
+    + constructor; [|constructor]. exists p. split; [reflexivity | exact Hp].
+    + exact (IH eq_refl).
+Qed.
+
+Lemma rows_two a v w xs ys :
+  achain a v xs anil -> achain a w ys anil -> amap_rows a [v; w] (map row2 (combine xs ys)).
+Proof.
+  intros H. revert w ys. remember anil as e eqn:Ee.
+  induction H as [v Hnp | p x d xs e Hp Hc IH]; intros w ys Hw; subst.
+  - apply mr_stop. reflexivity.
+  - remember anil as e' eqn:Ee'. destruct Hw as [w Hnq | q y e0 ys e' Hq Hw]; subst.
+    + apply mr_stop. reflexivity.
+    + cbn [combine map]. apply (mr_step a [ALoc (LPair p); ALoc (LPair q)] [(x, d); (y, e0)] (map row2 (combine xs ys))).
+      * reflexivity.
+      * constructor; [exists p; split; [reflexivity | exact Hp]|].
+        constructor; [exists q; split; [reflexivity | exact Hq]|constructor].
+      * exact (IH eq_refl e0 ys Hw).
+Qed.
+
+Section MapForms.
+Variable fuel : nat.
+Variable fn : list vcell -> M vcell.
+Variable Pre : list aval -> Prop.
+Hypothesis Hfn : forall s args,
+  values_are_refs s -> sp s < scap s -> Forall (val_ok s) args -> Pre (map (absv s) args) ->
+  exists r s', fn args s = ROk r s' /\ pres s s' /\ values_are_refs s' /\ sp s' < scap s' /\ val_ok s' r.
+
+(* (map fn l): l a proper list x1 ... xn: fn is called on x1, then on x2, ...; the result is a
+   fresh proper list of the n results *)
+Theorem prelude_map_one s l xs :
+  inv s -> val_ok s l -> achain (abs s) (absv s l) xs anil ->
+  (length xs + 2 <= fuel)%nat -> Forall (fun x => Pre [x]) xs ->
+  exists r s' ys locs, p_map fuel fn [l] s = ROk r s' /\ calls fn s (map row1 xs) ys s' /\ inv s' /\
+    val_ok s' r /\ aprefix (abs s') (absv s' r) locs ys anil /\ fresh_in s locs /\ length ys = length xs.
+Proof.
+  intros I Hl Hch Hf HPre.
+  destruct (prelude_map_spec fuel fn Pre Hfn s [l] (map row1 xs) I ltac:(constructor; [exact Hl|constructor])
+              (rows_one _ _ _ Hch) ltac:(cbn [length]; lia) ltac:(rewrite map_length; lia)
+              ltac:(apply Forall_map; exact HPre))
+    as (r & s' & ys & locs & E & C & I' & Hvr & Hpre & Hfr).
+  exists r, s', ys, locs. repeat (split; [assumption|]).
+  rewrite (calls_lengths _ _ _ _ _ C). apply map_length.
+Qed.
+
+(* (map fn l1 l2): fn is called on (x1 y1), (x2 y2), ... up to the shorter list *)
+Theorem prelude_map_two s l1 l2 xs ys :
+  inv s -> val_ok s l1 -> val_ok s l2 ->
+  achain (abs s) (absv s l1) xs anil -> achain (abs s) (absv s l2) ys anil ->
+  (3 <= fuel)%nat -> (Nat.min (length xs) (length ys) + 1 <= fuel)%nat ->
+  Forall (fun xy => Pre (row2 xy)) (combine xs ys) ->
+  exists r s' zs locs, p_map fuel fn [l1; l2] s = ROk r s' /\ calls fn s (map row2 (combine xs ys)) zs s' /\
+    inv s' /\ val_ok s' r /\ aprefix (abs s') (absv s' r) locs zs anil /\ fresh_in s locs /\
+    length zs = Nat.min (length xs) (length ys).
+Proof.
+  intros I Hl1 Hl2 Hc1 Hc2 Hf3 Hf HPre.
+  destruct (prelude_map_spec fuel fn Pre Hfn s [l1; l2] (map row2 (combine xs ys)) I
+              ltac:(constructor; [exact Hl1|constructor; [exact Hl2|constructor]])
+              (rows_two _ _ _ _ _ Hc1 Hc2) ltac:(cbn [length]; lia)
+              ltac:(rewrite map_length, combine_length; lia)
+              ltac:(apply Forall_map; exact HPre))
+    as (r & s' & zs & locs & E & C & I' & Hvr & Hpre & Hfr).
+  exists r, s', zs, locs. repeat (split; [assumption|]).
+  rewrite (calls_lengths _ _ _ _ _ C), map_length. apply combine_length.
+Qed.
+
+Theorem prelude_for_each_one s l xs :
+  inv s -> val_ok s l -> achain (abs s) (absv s l) xs anil ->
+  (length xs + 2 <= fuel)%nat -> Forall (fun x => Pre [x]) xs ->
+  exists s' ys, p_for_each fuel fn [l] s = ROk VVoid s' /\ calls fn s (map row1 xs) ys s' /\ inv s'.
+Proof.
+  intros I Hl Hch Hf HPre.
+  exact (prelude_for_each_spec fuel fn Pre Hfn s [l] (map row1 xs) I ltac:(constructor; [exact Hl|constructor])
+           (rows_one _ _ _ Hch) ltac:(cbn [length]; lia) ltac:(rewrite map_length; lia)
+           ltac:(apply Forall_map; exact HPre)).
+Qed.
+
+Theorem prelude_for_each_two s l1 l2 xs ys :
+  inv s -> val_ok s l1 -> val_ok s l2 ->
+  achain (abs s) (absv s l1) xs anil -> achain (abs s) (absv s l2) ys anil ->
+  (3 <= fuel)%nat -> (Nat.min (length xs) (length ys) + 1 <= fuel)%nat ->
+  Forall (fun xy => Pre (row2 xy)) (combine xs ys) ->
+  exists s' zs, p_for_each fuel fn [l1; l2] s = ROk VVoid s' /\
+    calls fn s (map row2 (combine xs ys)) zs s' /\ inv s'.
+Proof.
+  intros I Hl1 Hl2 Hc1 Hc2 Hf3 Hf HPre.
+  exact (prelude_for_each_spec fuel fn Pre Hfn s [l1; l2] (map row2 (combine xs ys)) I
+           ltac:(constructor; [exact Hl1|constructor; [exact Hl2|constructor]])
+           (rows_two _ _ _ _ _ Hc1 Hc2) ltac:(cbn [length]; lia)
+           ltac:(rewrite map_length, combine_length; lia)
+           ltac:(apply Forall_map; exact HPre)).
+Qed.
+End MapForms.
